@@ -67,8 +67,9 @@ def model_replay(prop, tier, ev, rep, module, cfg, *, mode="fraction", label=Non
         from .vector import vector_replay
 
         def on_fail_vec(t, fails):
-            rep.violation("vector:" + keyfn(t, fails), {"transition": t, "failures": fails, "mode": "fraction, 2-D points",
-                                                        "model": module, "cfg": cfg})
+            pair = t.pop("_pair", None) if isinstance(t, dict) else None
+            rep.violation("vector:" + keyfn(t, fails), {"transition": t, "pair": pair, "failures": fails,
+                                                        "mode": "fraction, 2-D points", "model": module, "cfg": cfg})
         nv = vector_replay(recs, lib, on_fail_vec)
         from .vector import vector_fit, vector_matmul, vector_scalar_ops, vector_fitpoints
         nv += vector_fit(recs, lib, val, on_fail_vec)
@@ -664,23 +665,50 @@ def run(prop, tier):
 
 
 def replay_file(prop, path):
-    """re-execute one recorded violation against the current tree"""
+    """re-execute one recorded violation against the current tree (VERIF_REPO) and judge it again"""
+    from .trace import Validator
+    from . import trace
     with open(path) as f:
         doc = json.load(f)
     d = doc["detail"]
-    if "transition" not in d:
-        from . import trace
-        return trace.replay_event(prop, doc)
+    t = d.get("transition")
     lib = core.import_lib()
-    r = Replayer(lib, d.get("mode", "fraction"))
-    t = d["transition"]
-    live = r.build(t["pre"])
-    cls, val, exc = r.execute(live, t["act"])
-    fails = r.compare(live, t, cls, val, exc)
-    if fails:
-        print(f"VIOLATION property={prop} replay={path}")
-        for x in fails:
-            print("  " + x)
-        return 1
-    print(f"replay of {path}: conforms now")
-    return 0
+    if t is not None and "2-D" in str(d.get("mode", "")):
+        from .vector import vector_replay, vector_fit, vector_matmul, vector_scalar_ops, vector_fitpoints
+        recs = [t] + ([d["pair"]] if d.get("pair") else [])
+        fails_all = []
+        val = Validator()
+        vector_replay(recs, lib, lambda tt, fails: fails_all.extend(fails))
+        if len(recs) < 2:
+            print("this replay file holds one transition of a 2-D pair; re-run the check to re-create the pair")
+            return 2
+        if fails_all:
+            print(f"VIOLATION property={prop} replay={path}")
+            for x in fails_all:
+                print("  " + x)
+            return 1
+        print(f"replay of {path}: conforms now")
+        return 0
+    if t is not None and isinstance(t, dict) and "act" in t and "pre" in t:
+        val = Validator()
+        r = Replayer(lib, d.get("mode", "fraction") if d.get("mode") in ("fraction", "int", "float", "numpy.float64", "huge", "minimal-point") else "fraction",
+                     validator=val)
+        live = r.build(t["pre"])
+        r.reset_module_state()
+        cls, v, exc = r.execute(live, t["act"])
+        fails = r.compare(live, t, cls, v, exc)
+        if val.events:
+            verdicts, unknown, _ = val.run()
+            for e, _tag in val.events:
+                fails += [f"clause {c}" for c in (verdicts.get(e["id"]) or []) if not c.startswith("?")]
+        if fails:
+            print(f"VIOLATION property={prop} replay={path}")
+            for x in fails:
+                print("  " + x)
+            return 1
+        print(f"replay of {path}: conforms now")
+        return 0
+    if "event" in d:      # an observation recorded by a driver / the suite recorder: judged again as recorded
+        return trace.replay_event(prop, doc)
+    print("nothing replayable in this file")
+    return 2
